@@ -78,7 +78,45 @@ pub fn gen_field(u: &mut Unstructured, kind: FieldKind, sparse: bool) -> arbitra
     Ok(items.join(","))
 }
 
+/// Long but valid expressions: lists with many items and long whitespace runs, with the total
+/// length at and around 2^7 .. 2^16 bytes (the grammar puts no limit on either)
+fn gen_long_expr(u: &mut Unstructured) -> arbitrary::Result<String> {
+    let mut fields = Vec::new();
+    let long_field = u.int_in_range(0..=4usize)?;
+    for (i, k) in KINDS.iter().enumerate() {
+        let base = gen_field(u, *k, false)?;
+        if i == long_field || u.ratio(1, 4)? {
+            let n = (*u.choose(&[16usize, 32, 43, 64, 86, 128, 256, 400, 1024])? as i64 + u.range_i64(-1, 1)?) as usize;
+            let items: Vec<&str> = base.split(',').collect();
+            fields.push((0..n).map(|j| items[j % items.len()]).collect::<Vec<_>>().join(","));
+        } else {
+            fields.push(base);
+        }
+    }
+    let pad = if u.ratio(1, 3)? { (*u.choose(&[15usize, 64, 200, 250, 255, 256, 1024, 65_536])? as i64 + u.range_i64(-1, 1)?) as usize } else { 1 };
+    let at = u.int_in_range(0..=5usize)?;
+    let mut s = String::new();
+    for (i, f) in fields.iter().enumerate() {
+        if i == at {
+            s.push_str(&" ".repeat(pad));
+        } else if i > 0 {
+            s.push(' ');
+        }
+        if i == at && i == 0 && pad == 1 {
+            s.clear();
+        }
+        s.push_str(f);
+    }
+    if at == 5 {
+        s.push_str(&" ".repeat(pad));
+    }
+    Ok(s)
+}
+
 pub fn gen_expr(u: &mut Unstructured) -> arbitrary::Result<String> {
+    if u.ratio(1, 12)? {
+        return gen_long_expr(u);
+    }
     let mut s = String::new();
     let ws = |u: &mut Unstructured| -> arbitrary::Result<String> {
         Ok(match u.int_in_range(0..=7u8)? {
@@ -198,7 +236,7 @@ impl Prop for Denotation {
         }
     }
     fn check(c: &Case, cx: &mut Cx) -> Verdict {
-        if c.expr.len() > 400 {
+        if c.expr.len() > 1 << 18 {
             return Verdict::Skip("malformed case");
         }
         let reference = cron::parse(&c.expr);
@@ -209,6 +247,9 @@ impl Prop for Denotation {
         }
         if c.mutated {
             cx.label("mutant");
+        }
+        if c.expr.len() > 256 {
+            cx.nt("expression_longer_than_256_bytes");
         }
         let r = catch(|| CronSchedule::parse(&c.expr).map(|_| ()).map_err(|e| e));
         let got = match r {
